@@ -1,4 +1,5 @@
 import Typegen.Basic
+import Typegen.Generated.Tables
 /-! Probe: full L1 — model of `TypeResolver::parse_type_structure` and `type_to_string`,
     round trip on the CommaSafe fragment. -/
 namespace L
@@ -939,11 +940,17 @@ def typeSet : List Str :=
 def isLowerAscii (c : Char) : Bool := 'a' ≤ c ∧ c ≤ 'z'
 def isAlphaAscii (c : Char) : Bool := ('a' ≤ c ∧ c ≤ 'z') ∨ ('A' ≤ c ∧ c ≤ 'Z')
 
-/-- the final "is this a custom type name" test (ASCII model of `char::is_lowercase` / `is_alphabetic`) -/
+def inRanges (rs : List (Nat × Nat)) (n : Nat) : Bool := rs.any fun r => r.1 ≤ n && n ≤ r.2
+/-- `char::is_lowercase` / `char::is_alphabetic`: ASCII by definition, beyond ASCII by the tables `tgh extract` reads
+    off the toolchain's std on every run -/
+def isLowerU (c : Char) : Bool := isLowerAscii c || (128 ≤ c.toNat && inRanges Gen.lowerRanges c.toNat)
+def isAlphaU (c : Char) : Bool := isAlphaAscii c || (128 ≤ c.toNat && inRanges Gen.alphaRanges c.toNat)
+
+/-- the final "is this a custom type name" test -/
 def isCustomName (s : Str) : Bool :=
   match s with
   | [] => false
-  | c :: _ => !(typeSet.contains s) && !(isLowerAscii c) && isAlphaAscii c && !(s.contains '<')
+  | c :: _ => !(typeSet.contains s) && !(isLowerU c) && isAlphaU c && !(s.contains '<')
 
 def firstCommaSplit (i : Str) : Option (Str × Str) :=
   match findComma i with
